@@ -1617,8 +1617,12 @@ def probe_demo_independence(ctx):
             P1.framework.pars.at[par0, col] = 0.123456
             P1.framework.pars.at[par0, "display name"] = "edited in project one"
             now = tables(P2.framework)
-            P3 = at.demo(name, do_run=False)
-            third = tables(P3.framework)
+            try:
+                P3 = at.demo(name, do_run=False)
+                third = tables(P3.framework)
+            except Exception as e3:   # a project created afterwards cannot even be built any more
+                third = {k: v.iloc[0:0] for k, v in ref.items()}
+                ctx.notes.append(f"demo-independence: at.demo('{name}') after editing another project's framework raised {type(e3).__name__}: {str(e3)[:120]}")
         except Exception as e:
             ctx.notes.append(f"demo-independence probe on {name}: {e!r}"[:200])
             continue
